@@ -21,6 +21,7 @@ Pv = "1.2.826.0.1.3680043.9.3811.9.1"  # private
 U = "1.2.840.10008.5.1.4.1.1.999"  # public root, unknown to pynetdicom
 Q = "1.2.840.10008.5.1.4.1.2.1.1"  # Patient Root Q/R Find (non-storage, known)
 T1, T2, T3 = "1.2.840.10008.1.2", "1.2.840.10008.1.2.1", "1.2.840.10008.1.2.2"
+T4 = "1.2.840.10008.1.2.1.99"
 ABS = [A, B, Pv, U]
 ROLE_OPTS = [None, (True, True), (True, False), (False, True), (False, False)]
 R9 = [(a, b) for a in (None, True, False) for b in (None, True, False)]
@@ -139,6 +140,12 @@ def gen_cases(quick):
                 for pref in SUP_PREFS_1:
                     for r in R9:
                         yield [(1, ab, tss)], {ab: (pref, r[0], r[1])}, roles
+    # transfer syntax selection: every ordered non-empty sub-list of four transfer syntaxes on both
+    # sides (64 x 64), incl. proposals shorter / longer than the supported list and opposite orders
+    subl = [p for n in range(1, 5) for p in itertools.permutations((T1, T2, T3, T4), n)]
+    for tss in subl:
+        for pref in subl:
+            yield [(1, B, tss)], {B: (pref, None, None)}, {}
     # two contexts
     for a1, a2 in itertools.product(abs2, repeat=2):
         distinct = sorted({a1, a2})
